@@ -33,6 +33,7 @@ type loopInfo struct {
 	backs   []edgeState
 	phiVals map[*ssa.Phi]Val
 	idxPhi  *ssa.Phi
+	countedIdx *ssa.Phi // index of a counted loop (i := 0; i++): bound to $idx when there is no range index
 }
 
 type edgeState struct {
@@ -336,6 +337,34 @@ func (e *Exec) findLoops() {
 				li.idxPhi = phi
 			}
 		}
+		if li.idxPhi == nil {
+			// a counted loop "for i := 0; ...; i++": its index plays the part of $idx as well, so that an invariant
+			// written for "for i := range s" survives the (equivalent) rewrite into a counted loop and back
+			for _, ins := range h.Instrs {
+				phi, ok := ins.(*ssa.Phi)
+				if !ok {
+					break
+				}
+				if b, ok := phi.Type().Underlying().(*types.Basic); !ok || b.Info()&types.IsInteger == 0 {
+					continue
+				}
+				zero, inc := false, false
+				for _, ed := range phi.Edges {
+					if k, ok := ed.(*ssa.Const); ok && k.Value != nil && k.Value.String() == "0" {
+						zero = true
+					}
+					if bo, ok := ed.(*ssa.BinOp); ok && bo.Op == token.ADD && bo.X == ssa.Value(phi) {
+						if k, ok := bo.Y.(*ssa.Const); ok && k.Value != nil && k.Value.String() == "1" {
+							inc = true
+						}
+					}
+				}
+				if zero && inc && len(phi.Edges) == 2 {
+					li.countedIdx = phi
+					break
+				}
+			}
+		}
 	}
 	for n := range e.con.Loops {
 		if n < 1 || n > len(headers) {
@@ -524,6 +553,9 @@ func (e *Exec) loopNames(li *loopInfo, phiVal func(*ssa.Phi) Val) map[string]Val
 		if phi == li.idxPhi {
 			one := e.c.intLit(big.NewInt(1), phi.Type())
 			names["$idx"] = Val{T: e.c.arith("+", v, Val{T: one, S: v.S, GT: v.GT}, phi.Type()), S: v.S, GT: phi.Type()}
+		}
+		if li.idxPhi == nil && phi == li.countedIdx {
+			names["$idx"] = v
 		}
 	}
 	return names
